@@ -7,6 +7,9 @@ PROP_MODULES = {
     'C20': ['contracts.builders', 'contracts.shared_grid', 'contracts.c03_grid', 'contracts.c04_meta', 'contracts.c08_creator', 'contracts.c13_expiry', 'contracts.c16_limits', 'contracts.c20_conditional'],
     'C17': ['contracts.builders', 'contracts.shared_grid', 'contracts.c03_grid', 'contracts.c17_upstream'],
     'C10': ['contracts.builders', 'contracts.shared_grid', 'contracts.c03_grid', 'contracts.c04_meta', 'contracts.c16_limits', 'contracts.c20_conditional', 'contracts.c10_auth', 'contracts.c14_merge'],
+    'C05': ['contracts.builders', 'contracts.shared_grid', 'contracts.c05_compact', 'contracts.c06_atomic'],
+    'C19': ['contracts.builders', 'contracts.shared_grid', 'contracts.c05_compact'],
+    'C06': ['contracts.builders', 'contracts.shared_grid', 'contracts.c05_compact', 'contracts.c06_atomic'],
     'C12': ['contracts.builders', 'contracts.shared_grid', 'contracts.c03_grid', 'contracts.c04_meta', 'contracts.c08_creator', 'contracts.c11_seed', 'contracts.c13_expiry', 'contracts.c12_cleanup'],
     'C11': ['contracts.builders', 'contracts.shared_grid', 'contracts.c03_grid', 'contracts.c04_meta', 'contracts.c11_seed'],
     'C15': ['contracts.builders', 'contracts.c15_async'],
@@ -38,6 +41,33 @@ NOT_APPLICABLE = {
 }
 
 MANIFEST_META = {
+    'C05': dict(
+        text='Proof against a field-granular file model, for all addresses / payloads / prior contents: compact v2 '
+             '_store_tile updates the abstract view exactly (target slot = new bytes, EVERY other slot and its record bytes '
+             'unchanged, file grows by 4+len), slots of the 128x128 block are disjoint index cells (127/128 borders by '
+             'arithmetic), index read/update decode-encode, the bundle file name is cache_dir/L<z>/R<row>C<col> and is '
+             'injective (string lemma, cvc5); bulk store/load hand the whole list to one bundle only if all concerned tiles '
+             'live in that bundle file (set-cardinality invariant); file cache: a linked single-colour store removes whatever '
+             'exists at the address first; v1 bulk load does not stop at a missing slot.',
+        note='the file-object model (read-over-write, disjoint frames, struct little-endian) is a trusted stub; sqlite / '
+             'geopackage backends (suspects S1, S2), the path layouts (tc/mp/tms/quadkey/arcgis) and compact v1 records are '
+             'not yet under contract; redis/s3/azure/couchdb are outside'),
+    'C06': dict(
+        text='Proof of crash conditions in the file model: after EVERY write inside compact v2 _store_tile (including a torn '
+             'payload write of any length) every slot is either unchanged (entry, record bytes, size field, in-file) or - the '
+             'target only - the complete new record; write_atomic creates an exclusive sibling temp file, writes the whole '
+             'payload to that handle, closes it and only then renames it over the target, and on failure never replaces or '
+             'removes the target; FileCache._store reaches the location only through write_atomic and unlinks nothing but a '
+             'symlink at that location.',
+        note='crash model = process death; writes of <= 8 bytes are atomic (index entry); durability/fsync, NFS, sqlite '
+             'journaling, legend cache and seed progress file are outside; compact v1 ordering not yet under contract'),
+    'C19': dict(
+        text='Proof that the v2 representation invariant (every index entry empty or pointing at a complete in-file record above '
+             'the index whose size field matches) is preserved by _store_tile and index updates, hence after any history '
+             '(induction over operations); defragmentation copies, for each of the 128 rows, all 128 addresses (0..127, y) from '
+             'the old bundle and stores those found into the new one; v1 bulk load visits every tile (no early return).',
+        note='file model trusted; v1 index/data files, size() accounting, the rename/swap step and glob are outside; '
+             'the defrag loop invariant is per-row (rows < y copied) with the swap assumed'),
     'C12': dict(
         text='Proof on the real cleanup code (every iteration of the walks, all inputs): cleanup_directory hands a file to the '
              'remove handler iff remove_all or lstat(path).st_mtime < before_timestamp (strict, the file\'s own mtime, links not '
